@@ -4,6 +4,7 @@ import (
 	"bytes"
 	"compress/zlib"
 	"encoding/hex"
+	"encoding/json"
 	"fmt"
 	"image"
 	"image/color"
@@ -13,6 +14,7 @@ import (
 	"sort"
 	"strconv"
 	"strings"
+	"sync"
 
 	"seehuhn.de/go/pdf"
 
@@ -126,16 +128,47 @@ func genHostile[T any](ctx *core.Ctx, part string, maxLen int) ([]T, error) {
 	if ctx.Thorough() {
 		tier = "t"
 	}
-	cfg := fmt.Sprintf("INIT Init\nNEXT Next\nCONSTANTS\n  PART = \"%s\"\n  TIER = \"%s\"\n  MaxLen = %d\nCHECK_DEADLOCK FALSE\n", part, tier, maxLen)
-	ls, _, err := core.GenCases[T](ctx, core.TLCOpts{Dir: "filter", Module: "Gen_Hostile", CfgText: cfg, Mode: "evaluate", XssMB: 1024, Timeout: ctx.Dur(6, 25)})
-	if err != nil {
-		return nil, err
+	shards := 1
+	if part == "bodies" {
+		shards = ctx.Pick(4, 12)
 	}
-	if len(ls) == 0 {
+	var (
+		mu    sync.Mutex
+		all   []T
+		first error
+		wg    sync.WaitGroup
+	)
+	for sh := 0; sh < shards; sh++ {
+		wg.Add(1)
+		go func(sh int) {
+			defer wg.Done()
+			cfg := fmt.Sprintf("INIT Init\nNEXT Next\nCONSTANTS\n  PART = \"%s\"\n  TIER = \"%s\"\n  MaxLen = %d\n  Shard = %d\n  Shards = %d\nCHECK_DEADLOCK FALSE\n",
+				part, tier, maxLen, sh, shards)
+			ls, _, err := core.GenCases[T](ctx, core.TLCOpts{Dir: "filter", Module: "Gen_Hostile", CfgText: cfg, Mode: "evaluate", XssMB: 1024,
+				Timeout: ctx.Dur(6, 25), Quiet: sh > 0})
+			mu.Lock()
+			defer mu.Unlock()
+			if err != nil && first == nil {
+				first = err
+			}
+			all = append(all, ls...)
+		}(sh)
+	}
+	wg.Wait()
+	if first != nil {
+		return nil, first
+	}
+	if len(all) == 0 {
 		return nil, core.Infra("Gen_Hostile (%s) produced nothing", part)
 	}
-	ctx.Ev.AddReplayed(len(ls))
-	return ls, nil
+	// a fixed order, whatever the shards' finishing order
+	sort.SliceStable(all, func(i, j int) bool {
+		a, _ := json.Marshal(all[i])
+		b, _ := json.Marshal(all[j])
+		return string(a) < string(b)
+	})
+	ctx.Ev.AddReplayed(len(all))
+	return all, nil
 }
 
 type nopWC struct{ io.Writer }
